@@ -90,6 +90,13 @@ def build_corpus(tier, rng):
     c = Corpus(ID)
     thorough = tier == "thorough"
     cands = [("systematic", it) for it in systematic(rng, thorough)]
+    from props import c01
+    for i, it in enumerate(c01.nonascii()):
+        if i % 3 == 1:
+            it.metas.append(EM("prefix", "pré:"))
+        if i % 4 == 2:
+            it.metas.append(EM("cis"))
+        cands.append(("non-ascii-ident", it))
     for _ in range(800 if thorough else 80):
         it = G.string_enum(rng, allow_default=False, allow_prefix=True, distinct_lengths=True, custom_err=False,
                            allow_dw=False)
